@@ -31,22 +31,32 @@ class BM(mesa.Model):
         # agent churn BETWEEN two collects of one step: 1 all agents removed, 2 one created, 3 first removed,
         # 4 all removed once the model has stopped (the final step)
         self.mc = i(g("mc", 0))
+        # an explicit collection pattern overriding ic / sc: base-4 digit s = number of collects at step s (digit 0: at
+        # construction), no collect at steps beyond the digits: arbitrary gaps and duplicates in the collection history
+        self.pat = i(g("pat", None))
+        self.mr = i(g("mr", 1))      # model reporters on / off (a collector with agent reporters only, or with none at all)
         self.log = []
         self.t = 0
         areps = {"sv": lambda a: a.model.steps * 1000 + a.val, "val": "val"} if self.ar else None
         self.datacollector = DataCollector(
-            model_reporters={"Steps": lambda m: m.steps, "Sum": self.total, "K": "k", "T": "t"}, agent_reporters=areps)
+            model_reporters={"Steps": lambda m: m.steps, "Sum": self.total, "K": "k", "T": "t"} if self.mr else None,
+            agent_reporters=areps)
         for _ in range(self.n):
             BAgent(self, self.k)
         BM.INSTANCES.append(self)
-        self._collects(self.ic)
+        self._collects(self._count(self.ic))
+
+    def _count(self, default):
+        if self.pat is None or self.pat > -1000:      # the pattern q is passed as -(1000 + q)
+            return default
+        return ((-self.pat - 1000) // 4 ** self.steps) % 4
 
     def total(self):
         return sum(a.val for a in self.agents)
 
     def _collect(self):
         agents = [(a.unique_id, {"sv": self.steps * 1000 + a.val, "val": a.val}) for a in self.agents] if self.ar else []
-        self.log.append((self.steps, {"Steps": self.steps, "Sum": self.total(), "K": self.k, "T": self.t}, agents))
+        self.log.append((self.steps, {"Steps": self.steps, "Sum": self.total(), "K": self.k, "T": self.t} if self.mr else {}, agents))
         self.datacollector.collect(self)
 
     def _collects(self, count):
@@ -73,4 +83,4 @@ class BM(mesa.Model):
                 next(iter(self.agents)).remove()
         if self.stop is not None and self.steps >= self.stop:
             self.running = False
-        self._collects(self.sc)
+        self._collects(self._count(self.sc))
